@@ -124,7 +124,12 @@ def gen_case(rng, ttys):
         nfields=rng.choice([52] * 6 + [39, 40, 41, 42, 44, 47, 51]),
         threads=[],
     )
-    if rng.random() < 0.04:
+    if rng.random() < 0.05:
+        # a pseudo-terminal allocated after psutil built its (memoized) device map: the process sits on it
+        n_late = rng.choice(FAKE_PTS)
+        case["pty_late"] = n_late
+        case["tty_nr"] = os.makedev(136, n_late)
+    elif rng.random() < 0.04:
         # a pseudo-terminal closed while the (memoized) device map is being built: listed by the directory scan, gone at stat()
         case["pty_vanish"] = rng.choice(FAKE_PTS)
     comm_b = _b(case["comm"])
@@ -252,6 +257,19 @@ def _run_case(case, acc, clk):
         acc.count("terminal_map_built_with_vanishing_pty")
     else:
         victim = None
+    late = case.get("pty_late")
+    if late is not None and tmap_fn is not None and hasattr(tmap_fn, "cache_clear") and victim is None:
+        # the map is built while /dev/pts/<late> does not exist yet (another terminal() call earlier in the program's life)
+        lpath = os.path.join(env["pts_dir"], str(late))
+        os.unlink(lpath)
+        try:
+            tmap_fn.cache_clear()
+            with vk:
+                tmap_fn()
+        finally:
+            with open(lpath, "w"):
+                pass
+        acc.count("terminal_map_built_before_the_pty_existed")
 
     def cmp(getter, got, want, feature=None):
         acc.count("getter_comparisons")
@@ -297,7 +315,7 @@ def _run_case(case, acc, clk):
               float(case["cstime"]) / clk, (float(case["blkio"]) / clk) if case["nfields"] >= 42 else 0.0), None),
             ("create_time", lambda: pr._proc.create_time(), float(case["start"]) / clk + 1_700_000_000.0, None),
             ("cpu_num", lambda: pr.cpu_num(), case["processor"], None),
-            ("terminal", lambda: pr.terminal(), ttymap.get(case["tty_nr"]), None),
+            ("terminal", lambda: pr.terminal(), ttymap.get(case["tty_nr"]), "pty_created_after_first_call" if late is not None else None),
             ("num_threads", lambda: pr.num_threads(), max(1, len(case["threads"])), feat_status()),
             ("num_ctx_switches", lambda: tuple(pr.num_ctx_switches()), (case["vctx"], case["nvctx"]), feat_status()),
             ("uids", lambda: tuple(pr.uids()), tuple(case["uids"][:3]), feat_status()),
@@ -387,7 +405,7 @@ def _run_case(case, acc, clk):
                     if g2 != want:
                         viols.append((f"threads_wrong:{how}", f"threads {how}: got {g2!r} want {want!r} (process totals "
                                       f"{case['utime']}/{case['stime']} ticks)"))
-    if victim is not None:
+    if victim is not None or late is not None:
         tmap_fn.cache_clear()          # the next case builds the full map again
     if moved:
         ps.PROCFS_PATH = "/vproc"
